@@ -7,6 +7,7 @@
 -/
 import LiteFSVerif.Proofs.Engine
 import LiteFSVerif.Proofs.Image
+import LiteFSVerif.Proofs.ApplyBytes
 
 set_option linter.unusedSimpArgs false
 
@@ -62,5 +63,15 @@ theorem C15_recreate_continues (s0 s1 s2 : Eng) (mode : Nat) (hd : drop s0 = .ok
   · rw [h2, hsame.1, hdrop.1]
   · rw [h4, hsame.2.1, hdrop.2.1]
   · rw [h6, hsame.1, hdrop.1]
+
+/-- engine, replica side: applying the deletion marker the primary published (a file of size 0)
+    removes database, journal and WAL, leaves a database of zero pages in rollback mode, and puts
+    the replica at the marker's position — the same (TXID, empty checksum) the primary is at
+    (`C15_drop`) -/
+theorem C15_replica_applies_tombstone (s s' : Eng) (f : LTXFile) (fatal : Bool)
+    (h : applyLTX s f fatal = .ok s') (hc : f.commit = 0) :
+    s'.dbFile = none ∧ s'.journal = none ∧ s'.wal = none ∧ s'.pageN = 0 ∧ s'.walMode = false ∧
+    s'.posTxid = f.maxTxid ∧ s'.posChk = f.post :=
+  applyLTX_tombstone s s' f fatal h hc
 
 end LiteFSVerif.C15
